@@ -354,6 +354,46 @@ fn planted_typed(rep: &Report) {
     );
 }
 
+/// Scale: a long well-formed prefix (n elements; n around typical capacities) followed by a short
+/// ill-formed or well-formed snippet, and parenthesis nestings of depth n that are balanced or off
+/// by one. The verdict of the local recogniser does not depend on what precedes the snippet.
+pub fn run_scale(rep: &Report) {
+    let snippets = [
+        "( + 1 2 )", "( * 2 3 )", "( == 2 2 )", "( && true false )", "1 2", "( 1 2 )", "+", "1 +", "( ) 1", "1 ( 2 )", "!", "( - )", "1 + * 2",
+        "( = 1 )", "a = = 1", "1 , + 2", "( ; * 3 )", "- 1", "( 1 + 2 )", "f ( 1 )", "a = 3", "( )", "! true",
+    ];
+    let prefixes = ["0 ;", "1 ,", "a +", "( 1 ) *", "f 1 ;"];
+    let sizes = refmodel::gen::SCALE_SIZES;
+    let total = (snippets.len() * prefixes.len() * sizes.len()) as u64;
+    common::enumerate(rep, "long-prefix", total, 16, &|i, l| {
+        let sn = snippets[(i % snippets.len() as u64) as usize];
+        let r = i / snippets.len() as u64;
+        let pre = prefixes[(r % prefixes.len() as u64) as usize];
+        let n = sizes[(r / prefixes.len() as u64) as usize];
+        let src = format!("{} {}", vec![pre; n].join(" "), sn);
+        if src.len() > 4000 {
+            return Ok(());
+        }
+        let toks = tok::lex(&src).expect("scale source lexes").toks;
+        l.label("long well-formed prefix + snippet");
+        check_tokens_rendered(&toks, None, i % 2 == 1, l)
+    });
+    common::enumerate(rep, "paren-depth", sizes.len() as u64 * 3 * 2, 4, &|i, l| {
+        let n = sizes[(i % sizes.len() as u64) as usize];
+        let r = i / sizes.len() as u64;
+        let closes = match r % 3 {
+            0 => n,
+            1 => n - 1,
+            _ => n + 1,
+        };
+        let inner = if r / 3 == 0 { "1" } else { "1 , 2" };
+        let src = format!("{} {} {}", vec!["("; n].join(" "), inner, vec![")"; closes].join(" "));
+        let toks = tok::lex(&src).expect("scale source lexes").toks;
+        l.label("parenthesis nesting of depth n, balanced or off by one");
+        check_tokens_rendered(&toks, None, i % 2 == 0, l)
+    });
+}
+
 pub fn replay(case: &J, rep: &Report) {
     let mut l = Local::default();
     let toks = tokens_from_case(case);
